@@ -45,8 +45,8 @@ def build():
         // a failing exit status is an error unless allow_failure is set
         r is Ok ==> (proc_of(*hook, data) matches Some(p) && final(w).spawned == old(w).spawned.push(p)), //@C10.process_is_the_configured_command
         // a hook that did not end with exit code 0 (another code, or killed by a signal) is a failed step unless allow_failure is set
-        r is Ok ==> final(w).last_exit_ok || hook.allow_failure, //@C10.a_failed_hook_aborts_the_operation_unless_allow_failure,C07.a_failed_step_makes_a_failed_attempt
-        final(w).bad_exits <= old(w).bad_exits + 1, r is Ok && !hook.allow_failure ==> final(w).bad_exits == old(w).bad_exits, //@C10.a_failed_hook_aborts_the_operation_unless_allow_failure,C07.a_failed_step_makes_a_failed_attempt
+        r is Ok ==> final(w).last_exit_ok || hook.allow_failure, //@C10.a_failed_hook_aborts_the_operation_unless_allow_failure,C07.a_failed_step_makes_a_failed_attempt,C05.a_failed_challenge_hook_stops_the_validation
+        final(w).bad_exits <= old(w).bad_exits + 1, r is Ok && !hook.allow_failure ==> final(w).bad_exits == old(w).bad_exits, //@C10.a_failed_hook_aborts_the_operation_unless_allow_failure,C07.a_failed_step_makes_a_failed_attempt,C05.a_failed_challenge_hook_stops_the_validation
         r is Err ==> final(w).spawned == old(w).spawned
             || (proc_of(*hook, data) matches Some(p) && final(w).spawned == old(w).spawned.push(p)), //@C10.error_leaves_at_most_this_process
 """, loops={1: """
